@@ -18,7 +18,6 @@ import (
 	"github.com/kubewharf/kubegateway/pkg/ratelimiter/limiter"
 	"github.com/kubewharf/kubegateway/pkg/ratelimiter/limiter/elector"
 	_interface "github.com/kubewharf/kubegateway/pkg/ratelimiter/store/interface"
-	"github.com/kubewharf/kubegateway/pkg/ratelimiter/store/k8s"
 	limitutil "github.com/kubewharf/kubegateway/pkg/ratelimiter/util"
 
 	"verifharness/rig"
@@ -188,6 +187,10 @@ func apiAt(api []bool, i int) bool {
 // the harness (no 2 s sleeps), the API fails writes per attempt as scripted.
 func runStop(c *rig.Ctx, cs Case, m mode) int {
 	var v verdict
+	if !haveK8sState {
+		c.Count("skipped/stop (no k8s state shim)")
+		return pass
+	}
 	fail := func(kind, class, what string, impl, model interface{}) {
 		v.note(rig.Failure{Kind: kind, Class: class, What: what, Case: cs, Impl: impl, Model: model})
 	}
@@ -205,7 +208,7 @@ func runStop(c *rig.Ctx, cs Case, m mode) int {
 		fail("diff", "c13.harness", err.Error(), nil, nil)
 		return v.flush(c, m)
 	}
-	defer k8s.VerifC13Abandon(st)
+	defer abandon(st)
 	attempts, ok := 0, false
 	limiter.VerifC13SetStopCallback(e.rl, func(s int) {
 		_, attempts, ok = limiter.VerifC13StopLeadingStepped(e.rl, s, func(attempt int, err error) {
@@ -220,7 +223,7 @@ func runStop(c *rig.Ctx, cs Case, m mode) int {
 		return v.flush(c, m)
 	}
 	_, held := limiter.VerifC13Stores(e.rl)[shard]
-	_, periodic, stopCh, stopped := k8s.VerifC13StoreState(st)
+	_, periodic, stopCh, stopped := storeState(st)
 	flusher := periodic && !stopCh
 	if m.count {
 		b := fmt.Sprintf("stop/periodic=%v/ok=%v/attempts=%d", cs.Periodic, ok, attempts)
@@ -284,7 +287,7 @@ func runStopRT(c *rig.Ctx, cs Case, m mode) int {
 		fail("diff", "c13.harness", err.Error(), nil, nil)
 		return v.flush(c, m)
 	}
-	defer k8s.VerifC13Abandon(st)
+	defer abandon(st)
 	// while leading, the periodic flush persists the conditions
 	conds := api.gc.ProxyV1alpha1().RateLimitConditions()
 	deadline := time.Now().Add(5 * time.Second)
@@ -308,7 +311,7 @@ func runStopRT(c *rig.Ctx, cs Case, m mode) int {
 	elapsed := time.Since(t0)
 	api.setFail(false)
 	_, held := limiter.VerifC13Stores(e.rl)[shard]
-	_, periodic, stopCh, stopped := k8s.VerifC13StoreState(st)
+	_, periodic, stopCh, stopped := storeState(st)
 	// quiescence: a stopped flusher writes at most one trailing flush; a live one writes every period, forever.
 	// One-sided with slack: a violation is only "still writing in every 200 ms window for 3 s".
 	quiet := false
